@@ -5,44 +5,54 @@ Import Ebp EbpSpec.
 Definition val0 (o : option N) : N := match o with Some v => v | None => 0 end.
 Definition tval (o : option (N * N)) : N * N := match o with Some x => x | None => (0, 0) end.
 
+(* the guard of the patched readers (g = true) never fires on a field that lies inside the buffer and below index 256 *)
+Lemma chk_ok g data pre mid post n : data = pre ++ mid ++ post -> len mid = n -> len pre + n <= 255 ->
+  chk g data (len pre) n = false.
+Proof.
+  intros -> Hm Hb. unfold chk. rewrite !len_app, Hm.
+  replace (len pre + (n + len post) <? len pre + n) with false by lia.
+  replace (255 <? len pre + n) with false by lia. destruct g; reflexivity.
+Qed.
+
 (* ---------------- one lemma per optional field: the cursor is `len pre` ---------------- *)
-Lemma rd_ext_ok o data pre post e :
+Lemma rd_ext_ok g o data pre post e :
   data = pre ++ opt_byte o ++ post -> len pre + len (opt_byte o) <= 255 ->
   ExtensionFlag e = is_some o -> ExtensionFlags e = 0 ->
-  rd_ext false data (e, len pre) = Ok (set_ExtensionFlags e (val0 o), len (pre ++ opt_byte o)).
+  rd_ext g data (e, len pre) = Ok (set_ExtensionFlags e (val0 o), len (pre ++ opt_byte o)).
 Proof.
-  intros Hd Hl Hf H0. unfold rd_ext. rewrite Hf. destruct o as [v|]; cbn [is_some opt_byte val0 chk andb].
-  - cbn [opt_byte] in Hl; rewrite len_cons, len_nil in Hl. rewrite (rd8_at data pre v post Hd ltac:(lia)). reflexivity.
+  intros Hd Hl Hf H0. unfold rd_ext. rewrite Hf. destruct o as [v|]; cbn [is_some opt_byte val0].
+  - cbn [opt_byte] in Hl; rewrite len_cons, len_nil in Hl. rewrite (chk_ok g data pre [v] post 1 Hd eq_refl Hl). rewrite (rd8_at data pre v post Hd ltac:(lia)). reflexivity.
   - rewrite app_nil_r. destruct e; cbn in H0; subst; reflexivity.
 Qed.
 
-Lemma rd_sap_ok o data pre post e :
+Lemma rd_sap_ok g o data pre post e :
   data = pre ++ opt_byte o ++ post -> len pre + len (opt_byte o) <= 255 ->
   SapFlag e = is_some o -> SapType e = 0 ->
-  rd_sap false data (e, len pre) = Ok (set_SapType e (val0 o), len (pre ++ opt_byte o)).
+  rd_sap g data (e, len pre) = Ok (set_SapType e (val0 o), len (pre ++ opt_byte o)).
 Proof.
-  intros Hd Hl Hf H0. unfold rd_sap. rewrite Hf. destruct o as [v|]; cbn [is_some opt_byte val0 chk andb].
-  - cbn [opt_byte] in Hl; rewrite len_cons, len_nil in Hl. rewrite (rd8_at data pre v post Hd ltac:(lia)). reflexivity.
+  intros Hd Hl Hf H0. unfold rd_sap. rewrite Hf. destruct o as [v|]; cbn [is_some opt_byte val0].
+  - cbn [opt_byte] in Hl; rewrite len_cons, len_nil in Hl. rewrite (chk_ok g data pre [v] post 1 Hd eq_refl Hl). rewrite (rd8_at data pre v post Hd ltac:(lia)). reflexivity.
   - rewrite app_nil_r. destruct e; cbn in H0; subst; reflexivity.
 Qed.
 
-Lemma rd_group1_ok o data pre post e :
+Lemma rd_group1_ok g o data pre post e :
   data = pre ++ opt_byte o ++ post -> len pre + len (opt_byte o) <= 255 ->
   GroupingFlag e = is_some o -> Grouping e = [] ->
-  rd_group1 false data (e, len pre) = Ok (set_Grouping e (opt_byte o), len (pre ++ opt_byte o)).
+  rd_group1 g data (e, len pre) = Ok (set_Grouping e (opt_byte o), len (pre ++ opt_byte o)).
 Proof.
-  intros Hd Hl Hf H0. unfold rd_group1. rewrite Hf. destruct o as [v|]; cbn [is_some opt_byte chk andb].
-  - cbn [opt_byte] in Hl; rewrite len_cons, len_nil in Hl. rewrite (rd8_at data pre v post Hd ltac:(lia)). cbn [bind]. rewrite H0. reflexivity.
+  intros Hd Hl Hf H0. unfold rd_group1. rewrite Hf. destruct o as [v|]; cbn [is_some opt_byte].
+  - cbn [opt_byte] in Hl; rewrite len_cons, len_nil in Hl. rewrite (chk_ok g data pre [v] post 1 Hd eq_refl Hl). rewrite (rd8_at data pre v post Hd ltac:(lia)). cbn [bind]. rewrite H0. reflexivity.
   - rewrite app_nil_r. destruct e; cbn in H0; subst; reflexivity.
 Qed.
 
-Lemma read_time_ok o data pre post e :
+Lemma read_time_ok g o data pre post e :
   data = pre ++ opt_time o ++ post -> len pre + len (opt_time o) < 256 -> time_opt o ->
   TimeFlag e = is_some o -> TimeSeconds e = 0 -> TimeFraction e = 0 ->
-  read_time false data (e, len pre) = Ok (set_Time e (fst (tval o)) (snd (tval o)), len (pre ++ opt_time o)).
+  read_time g data (e, len pre) = Ok (set_Time e (fst (tval o)) (snd (tval o)), len (pre ++ opt_time o)).
 Proof.
-  intros Hd Hl Hv Hf H0 H1. unfold read_time. rewrite Hf. destruct o as [[s f]|]; cbn [is_some opt_time tval fst snd chk andb].
+  intros Hd Hl Hv Hf H0 H1. unfold read_time. rewrite Hf. destruct o as [[s f]|]; cbn [is_some opt_time tval fst snd].
   - destruct Hv as [Hs Hfr]. cbn [opt_time] in Hd, Hl. rewrite len_app, !len_to_be32 in Hl.
+    rewrite (chk_ok g data pre (to_be32 s ++ to_be32 f) post 8 Hd eq_refl ltac:(lia)).
     rewrite (rd32_at data pre s (to_be32 f ++ post)); [ | rewrite Hd, <- app_assoc; reflexivity | exact Hs | lia ].
     cbn [bind].
     rewrite (rd32_at data (pre ++ to_be32 s) f post); [ | rewrite Hd, <- !app_assoc; reflexivity | exact Hfr | rewrite len_app, len_to_be32; lia ].
@@ -91,8 +101,8 @@ Proof.
                 (c_discontinuity c) (c_rsvbit c) (is_some (c_ext c))) as B. cbv zeta in B. tauto.
 Qed.
 
-Lemma decode_ser_comcast c rest : wf_comcast c ->
-  readComcastEbp false (ser_comcast c ++ rest) = Ok (decoded_comcast c).
+Lemma decode_ser_comcast g c rest : wf_comcast c ->
+  readComcastEbp g (ser_comcast c ++ rest) = Ok (decoded_comcast c).
 Proof.
   intros (Hext & Hsap & Hgrp & Htm & Htail & Hlen).
   unfold readComcastEbp, ser_comcast, decoded_comcast.
@@ -123,18 +133,18 @@ Proof.
        TimeSeconds TimeFraction ReservedBytes Grouping FormatIdentifier PartitionFlags].
   destruct (comcast_flag_facts c L ltac:(lia)) as (Fe & Fs & Fg & Ft & _).
   (* extension *)
-  rewrite (rd_ext_ok (c_ext c) data ([169; L] ++ [F]) (S ++ G ++ T ++ c_tail c ++ rest));
+  rewrite (rd_ext_ok g (c_ext c) data ([169; L] ++ [F]) (S ++ G ++ T ++ c_tail c ++ rest));
     [ | exact Hd | fold E; lens | exact Fe | reflexivity ].
   cbn [bind]. fold E.
-  rewrite (rd_sap_ok (c_sap c) data (([169; L] ++ [F]) ++ E) (G ++ T ++ c_tail c ++ rest));
+  rewrite (rd_sap_ok g (c_sap c) data (([169; L] ++ [F]) ++ E) (G ++ T ++ c_tail c ++ rest));
     [ | rewrite Hd; cbn [app]; rewrite <- ?app_assoc; reflexivity | fold S; lens
       | exact Fs | reflexivity ].
   cbn [bind]. fold S.
-  rewrite (rd_group1_ok (c_group c) data ((([169; L] ++ [F]) ++ E) ++ S) (T ++ c_tail c ++ rest));
+  rewrite (rd_group1_ok g (c_group c) data ((([169; L] ++ [F]) ++ E) ++ S) (T ++ c_tail c ++ rest));
     [ | rewrite Hd; cbn [app]; rewrite <- ?app_assoc; reflexivity | fold G; lens
       | exact Fg | reflexivity ].
   cbn [bind]. fold G.
-  rewrite (read_time_ok (c_time c) data (((([169; L] ++ [F]) ++ E) ++ S) ++ G) (c_tail c ++ rest));
+  rewrite (read_time_ok g (c_time c) data (((([169; L] ++ [F]) ++ E) ++ S) ++ G) (c_tail c ++ rest));
     [ | rewrite Hd; cbn [app]; rewrite <- ?app_assoc; reflexivity | fold T; lens
       | exact Htm | exact Ft | reflexivity | reflexivity ].
   cbn [bind]. fold T.
@@ -146,13 +156,13 @@ Proof.
 Qed.
 
 (* ---------------- CableLabs ---------------- *)
-Lemma rd_part_ok o data pre post e :
+Lemma rd_part_ok g o data pre post e :
   data = pre ++ opt_byte o ++ post -> len pre + len (opt_byte o) <= 255 ->
   PartitionFlag e = is_some o -> PartitionFlags e = 0 ->
-  rd_part false data (e, len pre) = Ok (set_PartitionFlags e (val0 o), len (pre ++ opt_byte o)).
+  rd_part g data (e, len pre) = Ok (set_PartitionFlags e (val0 o), len (pre ++ opt_byte o)).
 Proof.
-  intros Hd Hl Hf H0. unfold rd_part. rewrite Hf. destruct o as [v|]; cbn [is_some opt_byte val0 chk andb].
-  - cbn [opt_byte] in Hl; rewrite len_cons, len_nil in Hl. rewrite (rd8_at data pre v post Hd ltac:(lia)). reflexivity.
+  intros Hd Hl Hf H0. unfold rd_part. rewrite Hf. destruct o as [v|]; cbn [is_some opt_byte val0].
+  - cbn [opt_byte] in Hl; rewrite len_cons, len_nil in Hl. rewrite (chk_ok g data pre [v] post 1 Hd eq_refl Hl). rewrite (rd8_at data pre v post Hd ltac:(lia)). reflexivity.
   - rewrite app_nil_r. destruct e; cbn in H0; subst; reflexivity.
 Qed.
 
@@ -186,13 +196,18 @@ Qed.
 
 Definition groups_list (o : option (N * list N)) : bytes := match o with Some (x, r) => x :: r | None => [] end.
 
-Lemma read_groups_ok o data pre post e :
+Lemma read_groups_ok g o data pre post e :
   data = pre ++ ser_groups o ++ post -> len pre + len (ser_groups o) <= 255 -> groups_ok o ->
   GroupingFlag e = is_some o -> Grouping e = [] ->
-  read_groups group_loop false data (e, len pre) = Ok (set_Grouping e (groups_list o), len (pre ++ ser_groups o)).
+  read_groups group_loop g data (e, len pre) = Ok (set_Grouping e (groups_list o), len (pre ++ ser_groups o)).
 Proof.
-  intros Hd Hb Hok Hf H0. unfold read_groups. rewrite Hf. destruct o as [[x r]|]; cbn [is_some ser_groups groups_list chk andb] in *.
-  - destruct Hok as [Hx Hr]. rewrite H0. cbn [app]. destruct r as [|z r]; cbn [ser_chain] in *.
+  intros Hd Hb Hok Hf H0. unfold read_groups. rewrite Hf. destruct o as [[x r]|]; cbn [is_some ser_groups groups_list] in *.
+  - destruct Hok as [Hx Hr]. rewrite H0. cbn [app].
+    assert (Hc : chk g data (len pre) 1 = false).
+    { destruct r as [|z r]; cbn [ser_chain] in Hd, Hb; rewrite len_cons in Hb.
+      - apply (chk_ok g data pre [x] post 1 Hd eq_refl). lia.
+      - apply (chk_ok g data pre [x + 128] (ser_chain z r ++ post) 1 Hd eq_refl). lia. }
+    rewrite Hc. destruct r as [|z r]; cbn [ser_chain] in *.
     + rewrite len_cons, len_nil in Hb. rewrite Hd. cbn [app]. rewrite idx_at. cbn [bind].
       destruct (id7_facts x Hx) as (E1 & E2 & _). rewrite E1, E2. cbn [N.eqb negb].
       unfold w8. rewrite N.mod_small by lia. rewrite len_app, len_cons, len_nil. reflexivity.
@@ -241,8 +256,8 @@ Proof.
   - reflexivity.
 Qed.
 
-Lemma decode_ser_cablelabs c rest : wf_cablelabs c ->
-  readCableLabsEbp false (ser_cablelabs c ++ rest) = Ok (decoded_cablelabs c).
+Lemma decode_ser_cablelabs g c rest : wf_cablelabs c ->
+  readCableLabsEbp g (ser_cablelabs c ++ rest) = Ok (decoded_cablelabs c).
 Proof.
   intros (Hfmt & Hext & Hsap & Hgrp & Htm & Htail & Hlen).
   unfold readCableLabsEbp, readCableLabsEbp_with, ser_cablelabs, decoded_cablelabs.
@@ -275,19 +290,19 @@ Proof.
   assert (Hd' : data = P0 ++ E ++ S ++ G ++ T ++ P ++ l_tail c ++ rest).
   { rewrite Hd. subst P0. cbn [app to_be32]. reflexivity. }
   clearbody P0. clear R0 R1 R2 R3 Hd.
-  rewrite (rd_ext_ok (ext_opt (l_ext c)) data P0 (S ++ G ++ T ++ P ++ l_tail c ++ rest));
+  rewrite (rd_ext_ok g (ext_opt (l_ext c)) data P0 (S ++ G ++ T ++ P ++ l_tail c ++ rest));
     [ | exact Hd' | fold E; lens | transitivity (is_some (l_ext c)); [exact Fe | destruct (l_ext c); reflexivity] | reflexivity ].
   cbn [bind]. fold E.
-  rewrite (rd_sap_ok (l_sap c) data (P0 ++ E) (G ++ T ++ P ++ l_tail c ++ rest));
+  rewrite (rd_sap_ok g (l_sap c) data (P0 ++ E) (G ++ T ++ P ++ l_tail c ++ rest));
     [ | rewrite Hd'; rewrite <- ?app_assoc; reflexivity | fold S; lens | exact Fs | reflexivity ].
   cbn [bind]. fold S.
-  rewrite (read_groups_ok (l_groups c) data ((P0 ++ E) ++ S) (T ++ P ++ l_tail c ++ rest));
+  rewrite (read_groups_ok g (l_groups c) data ((P0 ++ E) ++ S) (T ++ P ++ l_tail c ++ rest));
     [ | rewrite Hd'; rewrite <- ?app_assoc; reflexivity | fold G; lens | exact Hgrp | exact Fg | reflexivity ].
   cbn [bind]. fold G.
-  rewrite (read_time_ok (l_time c) data (((P0 ++ E) ++ S) ++ G) (P ++ l_tail c ++ rest));
+  rewrite (read_time_ok g (l_time c) data (((P0 ++ E) ++ S) ++ G) (P ++ l_tail c ++ rest));
     [ | rewrite Hd'; rewrite <- ?app_assoc; reflexivity | fold T; lens | exact Htm | exact Ft | reflexivity | reflexivity ].
   cbn [bind]. fold T.
-  rewrite (rd_part_ok (part_opt (l_ext c)) data ((((P0 ++ E) ++ S) ++ G) ++ T) (l_tail c ++ rest));
+  rewrite (rd_part_ok g (part_opt (l_ext c)) data ((((P0 ++ E) ++ S) ++ G) ++ T) (l_tail c ++ rest));
     [ | rewrite Hd'; rewrite <- ?app_assoc; reflexivity | fold P; lens
       | apply (partition_flag_fact (l_ext c)); [exact Hext | exact Fe | reflexivity] | reflexivity ].
   cbn [bind]. fold P.
